@@ -56,6 +56,16 @@ def _ident(a):
 # ---------------------------------------------------------------------------
 # plan generation (pure)
 
+def _has_ER(tree):
+    """Does the formula contain E(a R b)?  (Under fairness constraints the
+    library raises TypeError on it: a defect of the fair semantics, C15.)"""
+    if tree[0] in ('ap', 'bool'):
+        return False
+    if tree[0] == 'E' and tree[1][0] == 'R':
+        return True
+    return any(_has_ER(t) for t in tree[1:])
+
+
 def _quantified_subtrees(tree, acc):
     if tree[0] in ('A', 'E'):
         acc.append(tree)
@@ -617,10 +627,12 @@ def execute(plan):
         pristine[(k, e)] = r
     wellformed = {}
     inlogic = {}
+    c15_typeerror = {}
     for k, q in distinct.items():
         f = plan['formulas'][q['f']]
         wellformed[k] = ('mc' not in f) and q['F'] is None
         inlogic[k] = 'mc' not in f
+        c15_typeerror[k] = q['mc'] == 'LTL' or _has_ER(f['tree'])
 
     results = {}          # op index -> [set object, value at return, mutated]
     events = []
@@ -797,10 +809,12 @@ def execute(plan):
                                 'op {}: well-formed query raised {}'
                                 .format(i, out[1]))
             if out[0] == 'raise' and inlogic[k] and out[1] not in (
-                    'TypeError', 'UnexpectedToken', 'UnexpectedCharacters'):
-                # with F given TypeError is the library's (documented)
-                # rejection and C15's business; anything else is an
-                # internal error on a formula of the called logic
+                    'UnexpectedToken', 'UnexpectedCharacters') and not (
+                    out[1] == 'TypeError' and c15_typeerror[k]):
+                # a formula of the called logic with F given: any exception
+                # is an internal error, except the TypeError of the two
+                # defects of the fair semantics that belong to C15 (not
+                # claimed): LTL with F, and a formula containing E(a R b)
                 raise Violation('C19/K1-internal-error',
                                 'op {}: query with fairness constraints '
                                 'raised {}'.format(i, out[1]))
